@@ -1,4 +1,5 @@
 import Proofs.Observe.IterRun
+import Proofs.Observe.IterJoint
 import Properties.C07
 /-!
 # C07 — the async-iteration interface of an observation (`async for … in request.observation`)
@@ -212,5 +213,268 @@ theorem C07_iter_item_then_end (pre : List (Op α)) (hpre : wfOps pre = true)
   obtain ⟨ys, rfl⟩ := List.getLast?_eq_some_iff.mp h3
   refine ⟨ys, j, ?_, sublist_of_concat_sublist_concat _ _ _ h2⟩
   rw [h1]; simp
+
+-- (v) composition with the runner of `Request` ----------------------------------------------------------
+
+open Aiocoap.Observe
+
+theorem jop_cons_isCons {o : Op Msg} (h : (JOp.cons o).isCons = true) : o.isCons = true := by
+  cases o <;> simp [JOp.isCons, Op.isCons] at h ⊢
+
+theorem ops_wf_after (ds : List Delivery) (h : ∀ d ∈ afterEnd ds, d = .stopInterest)
+    (rest : List (Op Msg)) (hrest : rest.all Op.isCons = true) :
+    wfOps (opsOfDeliveries ds ++ rest) = true := by
+  induction ds with
+  | nil => simpa [opsOfDeliveries] using wfOps_of_all_cons rest hrest
+  | cons d ds ih =>
+    rw [opsOfDeliveries_cons, List.append_assoc]
+    cases d with
+    | errback k =>
+      have hall : ∀ d ∈ ds, d = .stopInterest := by
+        simpa [afterEnd, List.dropWhile_cons, Delivery.err?] using h
+      have : opsOfDeliveries ds = [] := by
+        clear ih h
+        induction ds with
+        | nil => rfl
+        | cons d ds ih =>
+          rw [opsOfDeliveries_cons, ih (fun d hd => hall d (List.mem_cons_of_mem _ hd)),
+            hall d List.mem_cons_self]
+          rfl
+      simp [opsOfDelivery, wfOps, this, hrest]
+    | callback m =>
+      have := ih (by simpa [afterEnd, List.dropWhile_cons, Delivery.err?] using h)
+      simpa [opsOfDelivery, wfOps] using this
+    | response m =>
+      simpa [opsOfDelivery] using ih (by simpa [afterEnd, List.dropWhile_cons, Delivery.err?] using h)
+    | responseExc k =>
+      simpa [opsOfDelivery] using ih (by simpa [afterEnd, List.dropWhile_cons, Delivery.err?] using h)
+    | stopInterest =>
+      simpa [opsOfDelivery] using ih (by simpa [afterEnd, List.dropWhile_cons, Delivery.err?] using h)
+
+theorem ops_noerr (ds : List Delivery) (h : errbacks ds = []) :
+    firstErr (opsOfDeliveries ds) = none ∧ wfOps (opsOfDeliveries ds) = true := by
+  refine ⟨by rw [firstErr_opsOfDeliveries, h]; rfl, ?_⟩
+  induction ds with
+  | nil => rfl
+  | cons d ds ih =>
+    rw [opsOfDeliveries_cons]
+    cases d with
+    | errback k => simp at h
+    | callback m => simpa [opsOfDelivery, wfOps] using ih (by simpa using h)
+    | response m => simpa [opsOfDelivery] using ih (by simpa using h)
+    | responseExc k => simpa [opsOfDelivery] using ih (by simpa using h)
+    | stopInterest => simpa [opsOfDelivery] using ih (by simpa using h)
+
+theorem jops_over (cfg : Cfg) (r : ObsState) (hr : Over r) (js : List JOp)
+    (hjs : ∀ j ∈ js, j.isCons = true) : (jops cfg r js).all Op.isCons = true := by
+  induction js generalizing r with
+  | nil => rfl
+  | cons j js ih =>
+    have hjs' : ∀ j ∈ js, j.isCons = true := fun j hj => hjs j (List.mem_cons_of_mem _ hj)
+    cases j with
+    | pipe e =>
+      obtain ⟨h1, h2⟩ := over_step (cfg := cfg) hr e
+      simp only [jops, h2, opsOfDeliveries, List.flatMap_nil, List.nil_append]
+      exact ih _ h1 hjs'
+    | cons o =>
+      simp only [jops, List.all_cons, Bool.and_eq_true]
+      exact ⟨jop_cons_isCons (hjs _ List.mem_cons_self), ih r hr hjs'⟩
+
+theorem jops_wf (cfg : Cfg) (r : ObsState) (js : List JOp) (hjs : ∀ j ∈ js, j.isCons = true) :
+    wfOps (jops cfg r js) = true := by
+  induction js generalizing r with
+  | nil => rfl
+  | cons j js ih =>
+    have hjs' : ∀ j ∈ js, j.isCons = true := fun j hj => hjs j (List.mem_cons_of_mem _ hj)
+    cases j with
+    | pipe e =>
+      simp only [jops]
+      rcases step_errbacks cfg r e with h | ⟨k, _, hend⟩
+      · obtain ⟨h1, h2⟩ := ops_noerr _ h
+        exact wfOps_append _ _ h2 h1 (ih _ hjs')
+      · exact ops_wf_after _ (step_afterEnd cfg r e) _ (jops_over cfg _ (Or.inl hend) js hjs')
+    | cons o =>
+      have ho := jop_cons_isCons (hjs _ List.mem_cons_self)
+      simp only [jops]
+      cases o <;> first | (simp [Op.isCons] at ho; done) | simpa [wfOps] using ih r hjs'
+
+theorem jops_pushed (cfg : Cfg) (r : ObsState) (js : List JOp) (hjs : ∀ j ∈ js, j.isCons = true) :
+    pushed (jops cfg r js) = callbacksOf (deliveries cfg r (events js)) := by
+  induction js generalizing r with
+  | nil => rfl
+  | cons j js ih =>
+    have hjs' : ∀ j ∈ js, j.isCons = true := fun j hj => hjs j (List.mem_cons_of_mem _ hj)
+    cases j with
+    | pipe e =>
+      simp only [jops, events, List.filterMap_cons, JOp.event?]
+      rw [pushed_append, pushed_opsOfDeliveries, deliveries_cons, callbacksOf_append]
+      congr 1
+      exact ih _ hjs'
+    | cons o =>
+      have ho := jop_cons_isCons (hjs _ List.mem_cons_self)
+      simp only [jops, events, List.filterMap_cons, JOp.event?]
+      rw [pushed_cons]
+      have : pushedOf o = [] := by cases o <;> first | rfl | simp [Op.isCons] at ho
+      rw [this, List.nil_append]
+      exact ih r hjs'
+
+theorem jops_firstErr (cfg : Cfg) (r : ObsState) (js : List JOp) (hjs : ∀ j ∈ js, j.isCons = true) :
+    firstErr (jops cfg r js) = (errbacks (deliveries cfg r (events js))).head? := by
+  induction js generalizing r with
+  | nil => rfl
+  | cons j js ih =>
+    have hjs' : ∀ j ∈ js, j.isCons = true := fun j hj => hjs j (List.mem_cons_of_mem _ hj)
+    cases j with
+    | pipe e =>
+      simp only [jops, events, List.filterMap_cons, JOp.event?]
+      rw [firstErr_append, firstErr_opsOfDeliveries, deliveries_cons, errbacks_append,
+        List.head?_append]
+      congr 1
+      exact ih _ hjs'
+    | cons o =>
+      have ho := jop_cons_isCons (hjs _ List.mem_cons_self)
+      simp only [jops, events, List.filterMap_cons, JOp.event?]
+      cases o <;> first | (simp [Op.isCons] at ho; done) | simpa [firstErr, events] using ih r hjs'
+
+theorem outs_feed_only (s : St Msg) (ops : List (Op Msg)) (h : ∀ o ∈ ops, o.isCons = false) :
+    (run s ops).2 = [] := by
+  induction ops generalizing s with
+  | nil => rfl
+  | cons o ops ih =>
+    have ho := h o List.mem_cons_self
+    simp only [run]
+    rw [ih _ (fun o' ho' => h o' (List.mem_cons_of_mem _ ho'))]
+    cases o <;> first | rfl | simp [Op.isCons] at ho
+
+theorem openOps_feed_only (ds : List Delivery) : ∀ o ∈ openOps ds, o.isCons = false := by
+  intro o ho
+  simp only [openOps, List.mem_append, List.mem_map, Option.mem_toList] at ho
+  rcases ho with ⟨m, _, rfl⟩ | ⟨e, _, rfl⟩ <;> rfl
+
+theorem callbacksOf_sublist_handedOver (ds : List Delivery) :
+    (callbacksOf ds).Sublist (handedOver ds) := by
+  induction ds with
+  | nil => simp [callbacksOf]
+  | cons d ds ih =>
+    cases d <;> simp [callbacksOf, Delivery.cb?, List.filterMap_cons] <;>
+      first | exact ih | exact ih.cons _ | skip
+    all_goals exact (List.Sublist.cons _ ih)
+
+theorem getLast?_toList_sublist {β : Type} (l : List β) : l.getLast?.toList.Sublist l := by
+  cases h : l.getLast? with
+  | none => simp
+  | some x =>
+    obtain ⟨ys, rfl⟩ := List.getLast?_eq_some_iff.mp h
+    simp
+
+/-- what an iterator opened after the events `pre` is fed, when the runner then goes through `js` -/
+theorem compose_ops (cfg : Cfg) (pre : List TEvent) (js : List JOp)
+    (hjs : ∀ j ∈ js, j.isCons = true) :
+    let dsPre := deliveries cfg .awaitingFirst pre
+    let ds := deliveries cfg .awaitingFirst (pre ++ events js)
+    let ops := openOps dsPre ++ jops cfg (finalState cfg .awaitingFirst pre) js
+    wfOps ops = true ∧ firstErr ops = (errbacks ds).head? ∧
+    (pushed ops).Sublist (callbacksOf ds) ∧ (pushed ops).getLast? = lastCallback ds := by
+  intro dsPre ds ops
+  have hds : ds = dsPre ++ deliveries cfg (finalState cfg .awaitingFirst pre) (events js) :=
+    deliveries_append cfg _ pre (events js)
+  have hpushedOpen : pushed (openOps dsPre) = (callbacksOf dsPre).getLast?.toList := by
+    rw [← lastCallback_eq]
+    cases h1 : lastCallback dsPre <;> cases h2 : firstErrback dsPre <;>
+      simp [openOps, h1, h2, pushed, pushedOf]
+  have hfirstOpen : firstErr (openOps dsPre) = (errbacks dsPre).head? := by
+    rw [← firstErrback_eq]
+    cases h1 : lastCallback dsPre <;> cases h2 : firstErrback dsPre <;>
+      simp [openOps, h1, h2, firstErr]
+  have hpushed : pushed ops = (callbacksOf dsPre).getLast?.toList ++
+      callbacksOf (deliveries cfg (finalState cfg .awaitingFirst pre) (events js)) := by
+    rw [pushed_append, hpushedOpen, jops_pushed cfg _ js hjs]
+  refine ⟨?_, ?_, ?_, ?_⟩
+  · -- well-formed
+    cases h2 : firstErrback dsPre with
+    | none =>
+      apply wfOps_append
+      · cases h1 : lastCallback dsPre <;> simp [openOps, h1, h2, wfOps]
+      · rw [hfirstOpen, ← firstErrback_eq, h2]
+      · exact jops_wf cfg _ js hjs
+    | some k =>
+      have hne : errbacks dsPre ≠ [] := by
+        intro h
+        rw [firstErrback_eq, h] at h2
+        cases h2
+      have hover := errbacks_over cfg .awaitingFirst pre hne
+      have hall := jops_over cfg _ hover js hjs
+      cases h1 : lastCallback dsPre <;> simp [ops, openOps, h1, h2, wfOps, hall]
+  · rw [firstErr_append, hfirstOpen, jops_firstErr cfg _ js hjs, hds, errbacks_append,
+      List.head?_append]
+  · rw [hpushed, hds, callbacksOf_append]
+    exact List.Sublist.append (getLast?_toList_sublist _) (List.Sublist.refl _)
+  · rw [hpushed, lastCallback_eq, hds, callbacksOf_append, List.getLast?_append, List.getLast?_append]
+    cases h : (callbacksOf dsPre).getLast? <;> simp
+
+/-- **C07 (async iteration over `request.observation`, for every history and every consumer).**
+Take any history of pipe events and application calls `pre`, let the application open the iteration
+(`__aiter__`) at that point — `pre = []`: from the start; later: as `BlockwiseRequest` does on the
+inner request, or an application that was busy with the first response — and let anything happen
+afterwards: pipe events (`JOp.pipe`) interleaved in any way with the consumer task calling
+`__anext__`, being resumed, being cancelled (`JOp.cons`).  With `ds` the deliveries of the runner
+over the whole history:
+
+* what the iteration hands out is a subsequence of what the observation's callbacks got, which is
+  a subsequence of the arrivals (and a `fresher`-chain: `C07_only_fresher`);
+* if the observation has not ended, a consumer that keeps iterating obtains the last notification
+  the runner accepted (`lastCallback`: by `C07_state_is_last_handed_over` the freshest one), sees
+  no end, and nothing but items;
+* if it has ended with `k` (`errbacks ds = [k]`, where `errbacks ds` is `expectedEnd` by
+  `C07_ends_exactly_once`), a consumer that keeps iterating obtains a subsequence of the callbacks'
+  messages whose last element is the last message the callbacks got — the final response when a
+  response without Observe option ended the observation — followed by the end and nothing else:
+  `StopAsyncIteration` for `NotObservable` / `ObservationCancelled`, the network error raised. -/
+theorem C07_iter_compose (cfg : Cfg) (pre : List TEvent) (js : List JOp)
+    (hjs : ∀ j ∈ js, j.isCons = true) :
+    let ds := deliveries cfg .awaitingFirst (pre ++ events js)
+    let s0 : St Msg := final init (openOps (deliveries cfg .awaitingFirst pre))
+    let r := jrun cfg (finalState cfg .awaitingFirst pre) s0 js
+    (items r.2).Sublist (callbacksOf ds) ∧
+    (callbacksOf ds).Sublist (arrived (pre ++ events js)) ∧
+    (errbacks ds = [] → ∀ n, 2 ≤ n →
+      let O := r.2 ++ (pulls n r.1.2).2
+      noCancel O = (items O).map .item ∧ (items O).Sublist (callbacksOf ds) ∧
+        (items O).getLast? = lastCallback ds) ∧
+    (∀ k, errbacks ds = [k] → ∀ n, 3 ≤ n →
+      ∃ (its : List Msg) (j : Nat), noCancel (r.2 ++ (pulls n r.1.2).2) =
+          its.map .item ++ List.replicate (j + 1) (endOut k) ∧
+        its.Sublist (callbacksOf ds) ∧ its.getLast? = lastCallback ds) := by
+  intro ds s0 r
+  obtain ⟨hwf, hfe, hps, hpl⟩ := compose_ops cfg pre js hjs
+  generalize hops : openOps (deliveries cfg .awaitingFirst pre) ++
+    jops cfg (finalState cfg .awaitingFirst pre) js = ops at hwf hfe hps hpl
+  have hrun : run init ops = (r.1.2, r.2) := by
+    rw [← hops, run_append]
+    have h0 := outs_feed_only init _ (openOps_feed_only (deliveries cfg .awaitingFirst pre))
+    obtain ⟨h1, h2⟩ := jrun_eq cfg (finalState cfg .awaitingFirst pre) s0 js
+    rw [h0, List.nil_append]
+    show ((run s0 _).1, (run s0 _).2) = _
+    rw [← h1]
+    have : (run s0 (jops cfg (finalState cfg .awaitingFirst pre) js)).1 = r.1.2 := by
+      show _ = (jrun cfg _ s0 js).1.2
+      rw [h2]
+    rw [this]
+  have houts : outs init ops = r.2 := by simp [outs, hrun]
+  have hfinal : final init ops = r.1.2 := by simp [final, hrun]
+  refine ⟨?_, ?_, ?_, ?_⟩
+  · rw [← houts]
+    exact (C07_iter_subsequence ops).trans hps
+  · exact (callbacksOf_sublist_handedOver ds).trans (C07_subsequence cfg .awaitingFirst _)
+  · intro hnone n hn
+    have hne : firstErr ops = none := by rw [hfe, hnone]; rfl
+    have := C07_iter_latest_obtained ops hwf hne n hn
+    simp only [houts, hfinal] at this
+    exact ⟨this.1, this.2.1.trans hps, by rw [this.2.2, hpl]⟩
+  · intro k hk n hn
+    have he : firstErr ops = some k := by rw [hfe, hk]; rfl
+    obtain ⟨its, j, h1, h2, h3⟩ := C07_iter_end_after_all_items ops hwf k he n hn
+    rw [houts, hfinal] at h1
+    exact ⟨its, j, h1, h2.trans hps, by rw [h3, hpl]⟩
 
 end Aiocoap.Observe.Iter
